@@ -5,8 +5,6 @@ package harness
 import (
 	"bytes"
 	"math/big"
-
-	vmcommon "github.com/ElrondNetwork/elrond-vm-common"
 )
 
 func (m *Model) judgeOther(c *Call, v *Verdict) {
@@ -14,41 +12,41 @@ func (m *Model) judgeOther(c *Call, v *Verdict) {
 	sndLocal, dstLocal := m.local(c.Caller, c.Shard), m.local(c.Rcv, c.Shard)
 	self := bytes.Equal(c.Caller, c.Rcv) && sndLocal
 	switch c.Fn {
-	case vmcommon.BuiltInFunctionESDTLocalMint, vmcommon.BuiltInFunctionESDTLocalBurn:
+	case refBuiltInFunctionESDTLocalMint, refBuiltInFunctionESDTLocalBurn:
 		if !self || len(args) < 2 {
 			return
 		}
 		m.judgeLocalMintBurn(c, v, args)
-	case vmcommon.BuiltInFunctionESDTBurn:
+	case refBuiltInFunctionESDTBurn:
 		if !sndLocal || !isESDTSC(c.Rcv) || len(args) != 2 {
 			return
 		}
 		m.judgeBurn(c, v, args)
-	case vmcommon.BuiltInFunctionESDTNFTCreate:
+	case refBuiltInFunctionESDTNFTCreate:
 		if !self || len(args) < 7 {
 			return
 		}
 		m.judgeCreate(c, v, args)
-	case vmcommon.BuiltInFunctionESDTNFTAddQuantity, vmcommon.BuiltInFunctionESDTNFTBurn, vmcommon.BuiltInFunctionESDTNFTAddURI, vmcommon.BuiltInFunctionESDTNFTUpdateAttributes:
+	case refBuiltInFunctionESDTNFTAddQuantity, refBuiltInFunctionESDTNFTBurn, refBuiltInFunctionESDTNFTAddURI, refBuiltInFunctionESDTNFTUpdateAttributes:
 		if !self || len(args) < 3 {
 			return
 		}
 		m.judgeNFTOwnHolding(c, v, args)
-	case vmcommon.BuiltInFunctionESDTFreeze, vmcommon.BuiltInFunctionESDTUnFreeze, vmcommon.BuiltInFunctionESDTWipe:
+	case refBuiltInFunctionESDTFreeze, refBuiltInFunctionESDTUnFreeze, refBuiltInFunctionESDTWipe:
 		m.judgeFreezeWipe(c, v, args, dstLocal)
-	case vmcommon.BuiltInFunctionESDTPause, vmcommon.BuiltInFunctionESDTUnPause:
+	case refBuiltInFunctionESDTPause, refBuiltInFunctionESDTUnPause:
 		m.judgePause(c, v, args)
-	case vmcommon.BuiltInFunctionSetESDTRole, vmcommon.BuiltInFunctionUnSetESDTRole:
+	case refBuiltInFunctionSetESDTRole, refBuiltInFunctionUnSetESDTRole:
 		m.judgeRoles(c, v, args, dstLocal)
-	case vmcommon.BuiltInFunctionESDTNFTCreateRoleTransfer:
+	case refBuiltInFunctionESDTNFTCreateRoleTransfer:
 		m.judgeHandOver(c, v, args, sndLocal, dstLocal)
-	case vmcommon.BuiltInFunctionChangeOwnerAddress:
+	case refBuiltInFunctionChangeOwnerAddress:
 		m.judgeChangeOwner(c, v, args, sndLocal, dstLocal)
-	case vmcommon.BuiltInFunctionClaimDeveloperRewards:
+	case refBuiltInFunctionClaimDeveloperRewards:
 		m.judgeClaim(c, v, args, sndLocal, dstLocal)
-	case vmcommon.BuiltInFunctionSetUserName:
+	case refBuiltInFunctionSetUserName:
 		m.judgeSetUserName(c, v, args, sndLocal, dstLocal)
-	case vmcommon.BuiltInFunctionSaveKeyValue:
+	case refBuiltInFunctionSaveKeyValue:
 		m.judgeSaveKeyValue(c, v, args, sndLocal)
 	}
 }
@@ -62,15 +60,15 @@ func (m *Model) roleCheck(v *Verdict, c *Call, token []byte, role string) {
 func (m *Model) judgeLocalMintBurn(c *Call, v *Verdict, args [][]byte) {
 	token, value := args[0], bigOf(args[1])
 	suffix := string(token)
-	mint := c.Fn == vmcommon.BuiltInFunctionESDTLocalMint
+	mint := c.Fn == refBuiltInFunctionESDTLocalMint
 	v.Known, v.Side, v.Named = true, "sender", [][]byte{token}
 	v.Suffixes = []string{suffix}
 	acc := m.acc(c.Shard, c.Caller)
 	if mint {
-		m.roleCheck(v, c, token, vmcommon.ESDTRoleLocalMint)
+		m.roleCheck(v, c, token, refESDTRoleLocalMint)
 		v.Charge = u64p(m.gas(c.Shard, "ESDTLocalMint"))
 	} else {
-		m.roleCheck(v, c, token, vmcommon.ESDTRoleLocalBurn)
+		m.roleCheck(v, c, token, refESDTRoleLocalBurn)
 		if value.Cmp(acc.bal(suffix)) > 0 {
 			v.fail(pC02, c.Fn+"/overdraft", "burning %v exceeds the holding %v", value, acc.bal(suffix))
 		}
@@ -123,9 +121,9 @@ func (m *Model) judgeCreate(c *Call, v *Verdict, args [][]byte) {
 	}
 	v.Known, v.Side, v.Named = true, "sender", [][]byte{token}
 	acc := m.acc(c.Shard, c.Caller)
-	m.roleCheck(v, c, token, vmcommon.ESDTRoleNFTCreate)
-	if qty.Cmp(big.NewInt(1)) > 0 && !acc.hasRole(token, vmcommon.ESDTRoleNFTAddQuantity) {
-		v.fail(pC03, "ESDTNFTCreate/missing-add-quantity-role", "creating quantity %v without %s", qty, vmcommon.ESDTRoleNFTAddQuantity)
+	m.roleCheck(v, c, token, refESDTRoleNFTCreate)
+	if qty.Cmp(big.NewInt(1)) > 0 && !acc.hasRole(token, refESDTRoleNFTAddQuantity) {
+		v.fail(pC03, "ESDTNFTCreate/missing-add-quantity-role", "creating quantity %v without %s", qty, refESDTRoleNFTAddQuantity)
 	}
 	royalties := uint32(low64(args[3]))
 	if royalties > refMaxRoyalty {
@@ -186,8 +184,8 @@ func (m *Model) judgeNFTOwnHolding(c *Call, v *Verdict, args [][]byte) {
 		m.flagChecks(v, c, c.Caller, token, suffix, c.Fn)
 	}
 	switch c.Fn {
-	case vmcommon.BuiltInFunctionESDTNFTAddQuantity:
-		m.roleCheck(v, c, token, vmcommon.ESDTRoleNFTAddQuantity)
+	case refBuiltInFunctionESDTNFTAddQuantity:
+		m.roleCheck(v, c, token, refESDTRoleNFTAddQuantity)
 		pausedCheck()
 		qty := bigOf(args[2])
 		v.Charge = u64p(m.gas(c.Shard, "ESDTNFTAddQuantity"))
@@ -196,8 +194,8 @@ func (m *Model) judgeNFTOwnHolding(c *Call, v *Verdict, args [][]byte) {
 			m.addSupply(suffix, qty)
 			return nil
 		}
-	case vmcommon.BuiltInFunctionESDTNFTBurn:
-		m.roleCheck(v, c, token, vmcommon.ESDTRoleNFTBurn)
+	case refBuiltInFunctionESDTNFTBurn:
+		m.roleCheck(v, c, token, refESDTRoleNFTBurn)
 		pausedCheck()
 		qty := bigOf(args[2])
 		if qty.Cmp(e.Value) > 0 {
@@ -210,8 +208,8 @@ func (m *Model) judgeNFTOwnHolding(c *Call, v *Verdict, args [][]byte) {
 			m.addSupply(suffix, d)
 			return nil
 		}
-	case vmcommon.BuiltInFunctionESDTNFTAddURI:
-		m.roleCheck(v, c, token, vmcommon.ESDTRoleNFTAddURI)
+	case refBuiltInFunctionESDTNFTAddURI:
+		m.roleCheck(v, c, token, refESDTRoleNFTAddURI)
 		pausedCheck()
 		l := uint64(0)
 		for _, u := range args[2:] {
@@ -227,12 +225,12 @@ func (m *Model) judgeNFTOwnHolding(c *Call, v *Verdict, args [][]byte) {
 			acc.setEntry(suffix, ne)
 			return nil
 		}
-	case vmcommon.BuiltInFunctionESDTNFTUpdateAttributes:
+	case refBuiltInFunctionESDTNFTUpdateAttributes:
 		if len(args) != 3 {
 			v.Known = false
 			return
 		}
-		m.roleCheck(v, c, token, vmcommon.ESDTRoleNFTUpdateAttributes)
+		m.roleCheck(v, c, token, refESDTRoleNFTUpdateAttributes)
 		pausedCheck()
 		v.Charge = u64p(m.gas(c.Shard, "ESDTNFTUpdateAttributes") + uint64(len(args[2]))*m.gas(c.Shard, "StorePerByte"))
 		v.Labels = append(v.Labels, "metadata-update")
@@ -265,7 +263,7 @@ func (m *Model) judgeFreezeWipe(c *Call, v *Verdict, args [][]byte, dstLocal boo
 	acc := m.acc(c.Shard, c.Rcv)
 	e := acc.entry(suffix)
 	switch c.Fn {
-	case vmcommon.BuiltInFunctionESDTWipe:
+	case refBuiltInFunctionESDTWipe:
 		if !e.Frozen {
 			v.fail(pC02, "ESDTWipe/not-frozen", "wipe of an account that is not frozen for %q", token)
 		}
@@ -275,7 +273,7 @@ func (m *Model) judgeFreezeWipe(c *Call, v *Verdict, args [][]byte, dstLocal boo
 			return nil
 		}
 	default:
-		freeze := c.Fn == vmcommon.BuiltInFunctionESDTFreeze
+		freeze := c.Fn == refBuiltInFunctionESDTFreeze
 		v.Apply = func(res *Result) []Clause {
 			ne := e.clone()
 			ne.Frozen = freeze
@@ -298,7 +296,7 @@ func (m *Model) judgePause(c *Call, v *Verdict, args [][]byte) {
 		v.Labels = append(v.Labels, "unauthorised-system-call")
 		return
 	}
-	pause := c.Fn == vmcommon.BuiltInFunctionESDTPause
+	pause := c.Fn == refBuiltInFunctionESDTPause
 	v.Apply = func(res *Result) []Clause {
 		m.Shards[c.Shard].PauseFlag[string(token)] = pause
 		return nil
@@ -317,7 +315,7 @@ func (m *Model) judgeRoles(c *Call, v *Verdict, args [][]byte, dstLocal bool) {
 		return
 	}
 	acc := m.acc(c.Shard, c.Rcv)
-	set := c.Fn == vmcommon.BuiltInFunctionSetESDTRole
+	set := c.Fn == refBuiltInFunctionSetESDTRole
 	v.Apply = func(res *Result) []Clause {
 		cur := append([]string{}, acc.Roles[string(token)]...)
 		for _, r := range args[1:] {
@@ -388,11 +386,11 @@ func (m *Model) judgeHandOver(c *Call, v *Verdict, args [][]byte, sndLocal, dstL
 		v.Apply = func(res *Result) []Clause {
 			var out []Clause
 			setCounter(old, token, 0)
-			removeRole(old, token, vmcommon.ESDTRoleNFTCreate)
+			removeRole(old, token, refESDTRoleNFTCreate)
 			if newLocal {
 				nh := m.acc(c.Shard, newHolder)
 				setCounter(nh, token, counter)
-				addRoleOnce(nh, token, vmcommon.ESDTRoleNFTCreate)
+				addRoleOnce(nh, token, refESDTRoleNFTCreate)
 				return out
 			}
 			if m.shardOf(newHolder) == refMetachainShard {
@@ -420,7 +418,7 @@ func (m *Model) judgeHandOver(c *Call, v *Verdict, args [][]byte, sndLocal, dstL
 		v.MustSucceed = &cl
 		v.Apply = func(res *Result) []Clause {
 			setCounter(nh, msg.Token, msg.Counter)
-			addRoleOnce(nh, msg.Token, vmcommon.ESDTRoleNFTCreate)
+			addRoleOnce(nh, msg.Token, refESDTRoleNFTCreate)
 			msg.Done = true
 			msg.Delivered++
 			return nil
